@@ -159,11 +159,22 @@ pub fn adf_n(n: usize) -> BoxedStrategy<Vec<F>> {
         }
         acs
     });
+    // symmetric: independent pairs attacking each other (many models, many heuristic ties), the rest random
+    let random3: BoxedStrategy<Vec<F>> = (0..n).map(|s| ac_formula(n, s)).collect::<Vec<_>>().boxed();
+    let symmetric = (random3, Just((0..n).collect::<Vec<usize>>()).prop_shuffle(), 1..=(n / 2).max(1)).prop_map(move |(mut acs, order, pairs)| {
+        for p in 0..pairs.min(n / 2) {
+            let (a, b) = (order[2 * p], order[2 * p + 1]);
+            acs[a] = F::not(F::Atom(b));
+            acs[b] = F::not(F::Atom(a));
+        }
+        acs
+    });
     prop_oneof![
         6 => random,
         2 => chain_adf(n),
         3 => cycle_adf(n),
         2 => shared,
+        2 => symmetric,
     ]
     .boxed()
 }
